@@ -335,6 +335,8 @@ def run(chk):
                 'original, alphanumeric, canonical, a finite table with ties, random_order under seeds 0..9} x attributes_first '
                 'x every variable as new top. A case is (model, tree|graph); non-trivial when some node has >=2 non-concept branches.')
     chk.require_theorems('Properties.C05', THEOREMS)
+    from harness import e2e_aln_theorems
+    chk.require_theorems('Properties.E2E_aln', e2e_aln_theorems.THEOREMS_C05)   # reconfigure / new-top CONTENT theorems
     common.use_repo()
     from penman.graph import Graph
     from penman.tree import Tree
